@@ -139,6 +139,13 @@ func TestVerifC01(t *testing.T) {
 			}
 			return
 		}
+		if c.Index%40 == 11 {
+			// outside the bubble: the real client transport over net/http and a loopback socket (c01real_test.go)
+			spec := genC01Real(c.R)
+			c.SetSpec(spec)
+			runC01Real(c, spec)
+			return
+		}
 		if c.Index%8 == 5 {
 			// the streamable HTTP client: calls whose POST is still unanswered when the session fails (c01http_test.go)
 			spec := genC01HTTP(c.R)
